@@ -32,10 +32,12 @@ NAME_PANELS = {
         ['f-86400', 'f86400'], ['f86399', 'f-86399'], ['f1', 'f-1'],
         # names with an embedded NUL byte ('_'): equal up to the NUL, or only one of them with a NUL
         ['v1_a', 'v1_b'], ['v1_a', 'v1_a'], ['v1', 'v1_a'], ['x1_a', 'v1_a'],
+        # local_time_zone() with $TZ naming the zone ('L'), racing with itself and with a load of the same name
+        ['vL1', 'vL1'], ['vL1', 'v2'], ['xL1', 'xL1'],
         # fixed-offset names that are accepted although not canonically spelled (minutes / seconds of 60..99)
         ['F+00:60:00', 'f3600'], ['F-00:90:00', 'F-00:90:00'], ['F+23:59:60', 'v1'], ['F+00:00:99', 'F-23:60:00']],
     3: [['v1', 'v1', 'v1'], ['v1', 'v1', 'v2'], ['v1', 'v2', 'v1'], ['x1', 'v1', 'x1'], ['n1', 'n1', 'v1'], ['v1', 'f3600', 'u'], ['f3600', 'f3600', 'v1'],
-        ['x1', 'x1', 'x1'], ['v1', 'v2', 'v3'], ['u', 'u0', 'v1'], ['v1_a', 'v1_b', 'v1_a'], ['v1_a', 'v1', 'v1_a']],
+        ['x1', 'x1', 'x1'], ['v1', 'v2', 'v3'], ['u', 'u0', 'v1'], ['vL1', 'vL1', 'vL1'], ['v1_a', 'v1_b', 'v1_a'], ['v1_a', 'v1', 'v1_a']],
     4: [['v1', 'v1', 'v1', 'v1'], ['v1', 'v1', 'v2', 'v2'], ['v1', 'x1', 'v1', 'x1'], ['v1', 'v2', 'f60', 'u'], ['n1', 'v1', 'n1', 'v1']],
 }
 
@@ -270,7 +272,8 @@ def run_C20(chk):
     shipped = dict(T.shipped_zones())
     ny = shipped['America/New_York']
     extra += ['memcalls ' + hx(bb) for bb in (b'', b'\x00', b'garbage bytes that are no zone data at all', ny[:100], ny[:-9], leap_file(), leap_file_slim(), ny, shipped['UTC'] if 'UTC' in shipped else ny)]
-    mo_e = run_model(extra); io_e = run_lines(exe, extra, timeout=600)
+    extra += ['mapgrow %d' % nn for nn in ((300, 2600) if scale == 'quick' else (300, 2600, 9000, 70000))]
+    mo_e = run_model(extra); io_e = run_lines(exe, extra, timeout=1200)
     for l, a, b in zip(extra, mo_e, io_e):
         chk.cov['evaluations'] += 1
         if b != a:
